@@ -65,6 +65,7 @@ type Blob struct {
 	Typ   types.Type // static type of V (pointer-to-struct for messages)
 	Empty *Term      // Bool: encoding has length 0
 	ID    int
+	Str   *Str // when set: the bytes of an abstract (encoded/opaque) string rather than a message
 }
 
 type Iface struct {
